@@ -2378,3 +2378,15 @@ mod tests {
         assert_eq!(unsafe { addr.load::<u64>() }, 0b11_1111_1111);
     }
 }
+
+/// Forwarders for the external verification harnesses (see `crate::verif_hooks`). One call each, no logic.
+#[cfg(any(kani, mmtk_verif))]
+pub mod verif_hooks_global {
+    use super::*;
+    pub fn zero_meta_bits(start: Address, start_bit: u8, end: Address, end_bit: u8) {
+        SideMetadataSpec::zero_meta_bits(start, start_bit, end, end_bit)
+    }
+    pub fn set_meta_bits(start: Address, start_bit: u8, end: Address, end_bit: u8) {
+        SideMetadataSpec::set_meta_bits(start, start_bit, end, end_bit)
+    }
+}
